@@ -278,6 +278,11 @@ _public_ int m_mod_ps_subscribe(m_mod_t *mod, const char *topic, m_src_flags fla
                     old_sub->userptr = userptr;
                     return 0;
                 }
+                /*
+                 * Flags changed: the subscription gets replaced.
+                 * Drop the old one first: the map key is its topic, that is freed with it when M_SRC_DUP is set.
+                 */
+                m_map_remove(mod->subscriptions, topic);
             }
         }
 
